@@ -220,6 +220,9 @@ func cmdCheck(args []string) int {
 			if v := optInt(h, *tier, "maxpaths", 0); v > 0 {
 				j.Meta["maxpaths"] = strconv.Itoa(v)
 			}
+			if h.Opts["fpexact"] == "1" {
+				j.Meta["fpexact"] = "1"
+			}
 			jobs = append(jobs, j)
 			jobHarness[j] = h
 		}
@@ -328,14 +331,17 @@ func cmdCheck(args []string) int {
 	exit := 0
 	var newViol, knownSeen []string
 	seenKey := map[string]bool{}
+	confirmedKey := map[string]bool{}
+	triesKey := map[string]int{}
 	os.MkdirAll(filepath.Join(verifRoot, "replays"), 0o755)
 	for _, v := range violations {
 		h := findHarness(hs, v.Harness)
 		key := v.Harness + "|" + v.Kind + "|" + v.Msg + "|" + v.Site
-		if seenKey[key] {
+		if seenKey[key+"|"+v.Case] || confirmedKey[key] || triesKey[key] >= 4 {
 			continue
 		}
-		seenKey[key] = true
+		seenKey[key+"|"+v.Case] = true
+		triesKey[key]++
 		file := filepath.Join(verifRoot, "replays", fmt.Sprintf("%s-%s-%d.json", prop, v.Harness, len(seenKey)))
 		var args []uint64
 		for _, r := range results {
@@ -353,9 +359,25 @@ func cmdCheck(args []string) int {
 		if !*noReplay && !modelOnly {
 			out, ok := nativeReplay(set, h, file)
 			replays++
+			for _, alt := range v.AltInputs {
+				if ok {
+					break
+				}
+				v2 := *v
+				v2.Inputs = alt
+				writeReplay(file, prop, &v2, args, native)
+				out, ok = nativeReplay(set, h, file)
+				replays++
+				if ok {
+					v.Inputs = alt
+				}
+			}
 			native = out
 			confirmed = ok
 			writeReplay(file, prop, v, args, native)
+		}
+		if confirmed {
+			confirmedKey[key] = true
 		}
 		if !confirmed {
 			inconcl = append(inconcl, fmt.Sprintf("ENGINE-MISMATCH %s[%s]: solver counterexample (%s: %s) did not reproduce natively: %s; replay=%s", v.Harness, v.Case, v.Kind, v.Msg, native, file))
